@@ -1,1 +1,41 @@
-import RosedVerif.Spec.Pos
+/-
+C09 — Insert, Delete and Overtype edit exactly the addressed clusters.
+-/
+import RosedVerif.Model.InstAFacts
+namespace RosedVerif.Props
+open RosedVerif
+
+/-- Insert yields clusters[0:p] + new + clusters[p:] for every integer p -/
+theorem C09_insert (ed : Editor Int) (p : Int) (x : List Int) :
+    ed.insert cxA p x = .ok (ed.withText (Spec.insert cxA ed.text p x)) :=
+  Editor.insert_eq_spec cxA_WF ed p x
+
+/-- Delete yields clusters[0:s] + clusters[e:] for every pair of integers -/
+theorem C09_delete (ed : Editor Int) (s e : Int) :
+    ed.delete cxA s e = .ok (ed.withText (Spec.delete cxA ed.text s e)) :=
+  Editor.delete_eq_spec cxA_WF ed s e
+
+/-- Overtype yields clusters[0:p] + new + clusters[min(p + len(new), n):].  The only proviso is that
+the 64-bit sum p + len(new) does not wrap, i.e. the two texts together have fewer than 2^63 clusters. -/
+theorem C09_overtype (ed : Editor Int) (p : Int) (x : List Int)
+    (hno : (gLen cxA ed.text : Int) + (gLen cxA x : Int) < 2 ^ 63) :
+    ed.overtype cxA p x = .ok (ed.withText (Spec.overtype cxA ed.text p x)) :=
+  Editor.overtype_eq_spec cxA_WF ed p x hno
+
+/-- deleting what was just inserted restores the text, whenever the insertion creates no junction
+effect (the inserted clusters stay what they are next to their new neighbours) -/
+theorem C09_roundtrip (t : List Int) (p : Int) (x : List Int)
+    (h : clusters cxA (Spec.insert cxA t p x) =
+      (clusters cxA t).take (Spec.posNat cxA t p) ++ clusters cxA x ++
+        (clusters cxA t).drop (Spec.posNat cxA t p)) :
+    Spec.delete cxA (Spec.insert cxA t p x) (Spec.posNat cxA t p : Nat)
+      ((Spec.posNat cxA t p + (clusters cxA x).length : Nat) : Int) = t :=
+  Spec.delete_insert_wf cxA_WF t p x h
+
+/-! non-vacuity (the inputs on which the unrepaired code failed) -/
+example : Spec.delete cxA [0x61, 0x62, 0x63, 0x64, 0x65, 0x66] (-2) 1 = [0x61, 0x62, 0x63, 0x64, 0x65, 0x66] := by
+  decide +kernel
+example : Spec.overtype cxA [0x61, 0x62, 0x63, 0x64, 0x65, 0x66] (-3) [0x77, 0x78, 0x79, 0x7a] =
+    [0x61, 0x62, 0x63, 0x77, 0x78, 0x79, 0x7a] := by decide +kernel
+
+end RosedVerif.Props
